@@ -7,7 +7,8 @@ import AlgoVerif.Proofs.C04Fib
 `Admitted1` / `Admitted` (Spec/C04.lean): every operation of the history returns (no `panic`, no
 `diverge`), `Peek`/`Delete` return a held pair whose key is `cmp`-extremal among all held entries,
 `Delete` removes exactly that pair, `Size` = number of held entries, `IsEmpty`/`ContainsKey`/`ContainsValue`
-answer membership over the held multiset, `Merge` makes the receiver hold the multiset union.
+answer membership over the held multiset, `Merge` makes the receiver hold the multiset union and leaves the
+operand empty (both heaps stay in use afterwards; merging a heap into itself changes nothing).
 `LawfulCmp cmp`: `cmp` is a total preorder read through its sign (min or max orientation alike).
 -/
 open AlgoVerif AlgoVerif.C04
@@ -24,6 +25,12 @@ theorem C04_binary {K V : Type} (cmp : K → K → Int) (hc : LawfulCmp cmp) (eq
 ties between distinct keys), and a history with duplicate keys, a resize (size 0 → capacity 2 → 4) and a
 tie on the extremal key runs as the theorem says. -/
 example : LawfulCmp cmpAsc ∧ LawfulCmp cmpDesc ∧ LawfulCmp cmpHalf := ⟨lawful_cmpAsc, lawful_cmpDesc, lawful_cmpHalf⟩
+/-- … and for comparators that return arbitrary magnitudes rather than -1/0/+1 -/
+example : LawfulCmp cmpSub ∧ LawfulCmp cmpSub7 ∧ LawfulCmp cmpRevSub := ⟨lawful_cmpSub, lawful_cmpSub7, lawful_cmpRevSub⟩
+example : Binary.run cmpSub7 (fun a b : Int => a == b) 1
+      [.insert 3 1, .insert 1 2, .insert 2 3, .delete, .containsKey 2, .delete, .delete] =
+    [.ok .unit, .ok .unit, .ok .unit, .ok (.kv (some (1, 2))), .ok (.bool true),
+     .ok (.kv (some (2, 3))), .ok (.kv (some (3, 1)))] := by decide
 example : Binary.run cmpAsc (fun a b : Int => a == b) 0
       [.insert 3 1, .insert 1 2, .insert 1 3, .delete, .size, .containsKey 3, .delete, .delete, .delete] =
     [.ok .unit, .ok .unit, .ok .unit, .ok (.kv (some (1, 2))), .ok (.int 2), .ok (.bool true),
@@ -31,23 +38,22 @@ example : Binary.run cmpAsc (fun a b : Int => a == b) 0
 
 /-- Binomial heap (`heap/binomial.go`): for every lawful comparator and every finite history over a family of
 heaps (Insert / Delete / DeleteAll / Peek / Size / IsEmpty / ContainsKey / ContainsValue on any heap of the
-family, `Merge` of one heap of the family into a different one), the trace of the Model is admitted by the
-multiset Spec. -/
+family, `Merge` of any heap of the family into any heap of the family, with both heaps used further), the trace
+of the Model is admitted by the multiset Spec. -/
 theorem C04_binomial {K V : Type} (cmp : K → K → Int) (hc : LawfulCmp cmp) (eqV : V → V → Bool)
-    (ops : List (MOp K V)) (hwf : WellFormed ops) :
+    (ops : List (MOp K V)) :
     Admitted cmp eqV (fun _ => []) ops ((binomialImpl cmp eqV).run ops) :=
-  (binomialRefines hc eqV).admitted ops hwf
+  (binomialRefines hc eqV).admitted ops
 
-/-- non-vacuity: a well-formed history with duplicate keys, a Merge of two non-empty heaps (which links twice)
-and a tie on the extremal key; its trace is the one the theorem admits. -/
-example : WellFormed ([.on 0 (.insert 3 1), .on 0 (.insert 1 2), .on 1 (.insert 1 3), .on 1 (.insert 2 4), .merge 0 1,
-       .on 0 .delete, .on 0 .size, .on 1 .size, .on 0 .delete, .on 0 (.containsKey 3)] : List (MOp Int Int)) := by
-  intro d s h; simp at h; omega
+/-- non-vacuity: duplicate keys, a Merge of two non-empty heaps (which links twice), a tie on the extremal key,
+the operand used again after the Merge, a second Merge of the same operand and a self-Merge. -/
 example : (binomialImpl cmpAsc (fun a b : Int => a == b)).run
       [.on 0 (.insert 3 1), .on 0 (.insert 1 2), .on 1 (.insert 1 3), .on 1 (.insert 2 4), .merge 0 1,
-       .on 0 .delete, .on 0 .size, .on 1 .size, .on 0 .delete, .on 0 (.containsKey 3)] =
+       .on 0 .delete, .on 0 .size, .on 1 .size, .on 1 (.insert 0 5), .merge 0 1, .merge 0 0, .on 0 .delete,
+       .on 0 .delete, .on 0 (.containsKey 3)] =
     [.ok .unit, .ok .unit, .ok .unit, .ok .unit, .ok .unit,
-     .ok (.kv (some (1, 2))), .ok (.int 3), .ok (.int 0), .ok (.kv (some (1, 3))), .ok (.bool true)] := by
+     .ok (.kv (some (1, 2))), .ok (.int 3), .ok (.int 0), .ok .unit, .ok .unit, .ok .unit, .ok (.kv (some (0, 5))),
+     .ok (.kv (some (1, 3))), .ok (.bool true)] := by
   simp [Impl.run, Impl.runFrom, Impl.mstep, binomialImpl, Binomial.step, update, Binomial.insert, Binomial.union,
     Binomial.merge, Binomial.consolidate, Binomial.consLoop, Binomial.new, Tree.leaf, Tree.deg,
     Binomial.sibSameOrder, Tree.link, cmpAsc, Tree.key, Binomial.mergeWith, Binomial.delete, Binomial.findExt,
@@ -59,21 +65,20 @@ heaps, the trace of the Model is admitted by the multiset Spec.  In particular `
 `degree < maxDegree n`), never follows a pointer to a node already cut from the root list, returns within
 its `(number of roots + 1)²` iterations, and leaves `h.ext` on a root with an extremal key. -/
 theorem C04_fibonacci {K V : Type} (cmp : K → K → Int) (hc : LawfulCmp cmp) (eqV : V → V → Bool)
-    (ops : List (MOp K V)) (hwf : WellFormed ops) :
+    (ops : List (MOp K V)) :
     Admitted cmp eqV (fun _ => []) ops ((fibImpl cmp eqV).run ops) :=
-  (fibRefines hc eqV).admitted ops hwf
+  (fibRefines hc eqV).admitted ops
 
 /-- non-vacuity (max orientation): lazy inserts, a Merge of two non-empty heaps, a Delete whose `consolidate`
-links three times (root list `3 2 4 5` → one tree of degree 2), a tie on the extremal key `5`. -/
-example : WellFormed ([.on 0 (.insert 3 1), .on 0 (.insert 5 2), .on 1 (.insert 5 3), .on 1 (.insert 2 4),
-      .on 1 (.insert 4 5), .merge 0 1, .on 0 .delete, .on 0 .size, .on 1 .size, .on 0 .delete,
-      .on 0 (.containsKey 3)] : List (MOp Int Int)) := by
-  intro d s h; simp at h; omega
+links three times (root list `3 2 4 5` → one tree of degree 2), a tie on the extremal key `5`, the operand used
+again after the Merge and merged a second time. -/
 example : (fibImpl cmpDesc (fun a b : Int => a == b)).run
       [.on 0 (.insert 3 1), .on 0 (.insert 5 2), .on 1 (.insert 5 3), .on 1 (.insert 2 4), .on 1 (.insert 4 5),
-       .merge 0 1, .on 0 .delete, .on 0 .size, .on 1 .size, .on 0 .delete, .on 0 (.containsKey 3)] =
+       .merge 0 1, .on 0 .delete, .on 0 .size, .on 1 .size, .on 1 (.insert 9 6), .merge 0 1, .on 0 .delete,
+       .on 0 .delete, .on 0 (.containsKey 3)] =
     [.ok .unit, .ok .unit, .ok .unit, .ok .unit, .ok .unit, .ok .unit,
-     .ok (.kv (some (5, 2))), .ok (.int 4), .ok (.int 0), .ok (.kv (some (5, 3))), .ok (.bool true)] := by
+     .ok (.kv (some (5, 2))), .ok (.int 4), .ok (.int 0), .ok .unit, .ok .unit, .ok (.kv (some (9, 6))),
+     .ok (.kv (some (5, 3))), .ok (.bool true)] := by
   decide
 
 /-- The arithmetic behind `roots[x.degree]` being in range: a tree of degree `d` that fits into `n` nodes
